@@ -1,9 +1,23 @@
 (* C18 — Telstate stream resolution and flag-stream upgrade.  Statements only. *)
 From Coq Require Import ZArith List Bool String.
-From KV Require Import Base.Sx Base.Str Model.Telstate Proofs.TelstateP.
+From KV Require Import Base.Sx Base.Str Gen.Generated Model.Telstate Proofs.TelstateP.
 Import ListNotations.
 Open Scope string_scope.
 Open Scope list_scope.
+
+(* NOTE: sep, the key names ('inherit', 'stream_type', 'src_streams', ...), 'sdp.vis', 'sdp.flags', the ORDER of the
+   view() calls of view_capture_stream (vcs_steps), the condition under which TelstateDataSource consults the
+   chunk info (ds_reads_chunk_info) and the precedence of keywords over the URL query are GENERATED from
+   katdal/datasources.py at every run (harness/vh/items/c18.py -> Gen/Generated.v); the statements below are
+   written with the words of the property and are re-proved against what was generated. *)
+Theorem C18_telstate_keys :
+  l0_cbid_key = "capture_block_id"%string /\ l0_stream_key = "stream_name"%string /\ l0_type_key = "stream_type"%string
+  /\ ts_inherit_key = "inherit"%string /\ fl_type_key = "stream_type"%string /\ fl_src_key = "src_streams"%string
+  /\ fl_archived_key = "sdp_archived_streams"%string /\ ts_sep = "_"%string
+  /\ ds_chunk_info_key = "chunk_info"%string /\ fl_chunk_info_key = "chunk_info"%string
+  /\ ds_dumps_array = "correlator_data"%string.
+Proof. exact telstate_keys. Qed.
+Print Assumptions C18_telstate_keys.
 
 (* view_capture_stream builds, for EVERY inherit chain [stream; inh1; inh2; ...], the prefixes in the order
    cb+stream, cb+inherited..., cb, stream, inherited..., global *)
@@ -13,6 +27,14 @@ Theorem C18_prefix_order : forall cb streams,
   ++ map (fun s => (s ++ sep)%string) streams ++ [""%string].
 Proof. exact prefix_order. Qed.
 Print Assumptions C18_prefix_order.
+
+(* the same on top of any base view (the candidates of the flag upgrade are viewed on top of the L0 view) *)
+Theorem C18_prefix_order_on : forall base cb streams,
+  view_capture_stream_on base cb streams =
+  map (fun s => (joinp cb s ++ sep)%string) streams ++ [(cb ++ sep)%string]
+  ++ map (fun s => (s ++ sep)%string) streams ++ base.
+Proof. exact prefix_order_on. Qed.
+Print Assumptions C18_prefix_order_on.
 
 (* the chain is obtained by following `<stream>_inherit` until it is absent (acyclic chains; a cyclic chain
    exhausts the fuel = the real loop does not terminate: excluded) *)
@@ -78,6 +100,12 @@ Theorem C18_flags_upgrade_rule : forall stream archived cur,
 Proof. exact flags_upgrade_rule. Qed.
 Print Assumptions C18_flags_upgrade_rule.
 
+(* which archived streams count: type sdp.flags AND the opened stream among the sources *)
+Theorem C18_flag_source_iff : forall stream f,
+  is_flag_source stream f = true <-> f_type f = Some "sdp.flags"%string /\ In stream (f_src f).
+Proof. exact flag_source_iff. Qed.
+Print Assumptions C18_flag_source_iff.
+
 (* differing dump counts: every array is extended to the longest one by one-dump phantom chunks appended
    after its own (unaltered) chunks *)
 Theorem C18_align_spans_longer : forall arrays a, In a arrays ->
@@ -86,3 +114,35 @@ Theorem C18_align_spans_longer : forall arrays a, In a arrays ->
   exists k, align_one maxd a = a ++ repeat 1%Z k /\ Z.of_nat k = (maxd - dumps_of a)%Z.
 Proof. exact align_spans_longer. Qed.
 Print Assumptions C18_align_spans_longer.
+
+(* HOWEVER the data set is opened - with a chunk store (s = true) or as metadata only, upgrade_flags given or
+   defaulted (u), timestamps synthesised (t = None) or given - the same flag streams are consulted: an incompatible
+   one is an error, and the number of dumps (of the data, and of the synthesised timestamps) is the larger of the
+   opened stream's and of the flag stream that replaces its flags.  The only combination excluded is a source
+   with neither data nor synthesised timestamps (s = false, t = Some k), which derives nothing from the streams
+   (next theorem). *)
+Theorem C18_span_however_opened : forall u stream cur archived, (0 <= c_dumps cur)%Z ->
+  forall s t, s = true \/ t = None ->
+  open_source (mkMode s u t) stream cur archived =
+  match (if match u with Some b => b | None => ds_upgrade_default end
+         then spec_upgrade stream cur archived else Ok cur) with
+  | Err e => Err e
+  | Ok c => let n := Z.max (c_dumps cur) (c_dumps c) in
+            Ok (mkOpened (match t with Some k => k | None => n end) (if s then Some (n, c_id c) else None))
+  end.
+Proof. exact span_however_opened. Qed.
+Print Assumptions C18_span_however_opened.
+
+Theorem C18_meta_explicit_ignores_streams : forall u k stream cur archived,
+  open_source (mkMode false u (Some k)) stream cur archived = Ok (mkOpened k None).
+Proof. exact meta_explicit_ignores_streams. Qed.
+Print Assumptions C18_meta_explicit_ignores_streams.
+
+(* the whole path (from_url / katdal.open): ids resolved keyword > URL query > file, view of the opened stream,
+   stream type check, own chunk info, candidates named by sdp_archived_streams each read through ITS view stacked
+   on the L0 view, upgrade, alignment - equals the same path computed with the spec prefix order, the spec upgrade
+   rule and the spec span, for every telstate content (dump counts non-negative) *)
+Theorem C18_open_refines_spec : forall m st vals kwcb urlcb kwsn urlsn, dumps_nonneg vals ->
+  open_url m st vals kwcb urlcb kwsn urlsn = spec_open_url m st vals kwcb urlcb kwsn urlsn.
+Proof. exact open_url_spec. Qed.
+Print Assumptions C18_open_refines_spec.
